@@ -1283,11 +1283,36 @@ func conv(t_dst, t_src types.Type, x value) value {
 
 		case types.Rune:
 			x := x.([]value)
-			r := make([]rune, 0, len(x))
+			hasSym := false
 			for i := range x {
-				r = append(r, x[i].(rune))
+				if _, ok := x[i].(sym); ok {
+					hasSym = true
+				}
 			}
-			return string(r)
+			if !hasSym {
+				r := make([]rune, 0, len(x))
+				for i := range x {
+					r = append(r, x[i].(rune))
+				}
+				return string(r)
+			}
+			// symbolic runes: exact while they are 7-bit (one byte each); otherwise the path ends as unsupported
+			var out []value
+			for i := range x {
+				switch r := x[i].(type) {
+				case sym:
+					c := r.t.C
+					if !exOf(r.t).Branch(c.Cmp(smt.OpULt, r.t, c.Const(0x80, r.t.W))) {
+						panic(pathAbort{"string([]rune) with a symbolic non-ASCII rune"})
+					}
+					out = append(out, mkVal(types.Typ[types.Uint8], c.Extract(r.t, 0, 8)))
+				case rune:
+					for _, b := range []byte(string(r)) {
+						out = append(out, b)
+					}
+				}
+			}
+			return mkSymstr(out)
 		}
 
 	case *types.Basic:
